@@ -28,7 +28,7 @@ import (
 
 const rule = "histories over 2 methods x 2 URLs x path-parameter values (raw cache: 4 keys) with stores, reads, " +
 	"clock moves landing on expiry-1ns/expiry/expiry+1ns, late sleepers fired individually, sizes around the limit; " +
-	"non-trivial = at least one hit/replay AND at least one miss/no-replay after a store of the same key; " +
+	"raw cache also with callers parked between their critical sections (gated clock), several remedies on one plugin; non-trivial = at least one hit/replay AND at least one miss/no-replay after a store of the same key; " +
 	"distinct by (ops, answers)"
 
 const mb = 1048576.0
@@ -36,11 +36,14 @@ const ttlUnit = 125_000_000 // ns; TTLs are multiples of 1/8 s so that every flo
 
 type env struct {
 	clk   *detclock.Manual
+	gate  *gateClock
+	gated map[int64]*gatedCall
 	base  int
 	mode  string
 	mc    *utils.MemoryCache[string, string]
 	cp    *remedies.CachingPlugin
 	ccfg  sharedConfig.CachingConfig
+	rems  []sharedConfig.CachingConfig
 	tp    *remedies.ResponseBasedThrottlingPlugin
 	tcfg  sharedConfig.ResponseBasedThrottlingConfig
 	hdr   string
@@ -58,7 +61,7 @@ func (e *env) quiesce() {
 	}
 	deadline := time.Now().Add(5 * time.Second)
 	for i := 0; ; i++ {
-		if runtime.NumGoroutine() <= e.base+len(e.clk.Pending()) {
+		if runtime.NumGoroutine() <= e.base+len(e.clk.Pending())+len(e.gated) {
 			return
 		}
 		if i < 200 {
@@ -159,6 +162,28 @@ func parsePP(word string) (map[string]string, bool) {
 	return m, true
 }
 
+func cachingConfig(ttl8, maxrec, maxb int64, paths string) sharedConfig.CachingConfig {
+	if ttl8 > 1<<23 || ttl8 < -(1<<23) || maxb >= 1<<24 {
+		panic("harness: ttl8/maxb outside the exactly representable range")
+	}
+	c := sharedConfig.CachingConfig{
+		TTLSeconds:            float32(ttl8) / 8,
+		MaxRecordSizeBytes:    int(maxrec),
+		MaxCacheSizeMegabytes: float32(maxb) / float32(mb),
+	}
+	if paths != "" {
+		for _, p := range strings.Split(paths, ",") {
+			pt := sharedConfig.PayloadRequestPathParams.String()
+			if strings.HasPrefix(p, "!") {
+				pt = sharedConfig.PayloadResponseHeaders.String()
+				p = p[1:]
+			}
+			c.RequestPayloadPaths = append(c.RequestPayloadPaths, sharedConfig.PayloadPath{PayloadType: pt, Path: p})
+		}
+	}
+	return c
+}
+
 func (e *env) cfg(w []string) string {
 	if e.mode != "" || len(w) < 2 {
 		return "bad-op"
@@ -181,8 +206,9 @@ func (e *env) cfg(w []string) string {
 			}
 			maxBytes = n
 		}
-		e.clk = detclock.NewManual(t0)
-		e.mc = utils.NewMemoryCache[string, string](e.clk)
+		e.gate = newGateClock(t0)
+		e.clk = e.gate.Manual
+		e.mc = utils.NewMemoryCache[string, string](e.gate)
 		if maxBytes >= 0 {
 			e.mc.WithMaxCacheSize(func(k, v string) float64 { return float64(len(k)+len(v)) / 1024 / 1024 },
 				float64(maxBytes)/mb)
@@ -195,24 +221,30 @@ func (e *env) cfg(w []string) string {
 		if !ok1 || !ok2 || !ok3 || !ok4 {
 			return "bad-op"
 		}
-		if ttl8 > 1<<23 || ttl8 < -(1<<23) || maxb >= 1<<24 {
-			panic("harness: ttl8/maxb outside the exactly representable range")
-		}
-		e.ccfg = sharedConfig.CachingConfig{
-			TTLSeconds:            float32(ttl8) / 8,
-			MaxRecordSizeBytes:    int(maxrec),
-			MaxCacheSizeMegabytes: float32(maxb) / float32(mb),
-		}
-		if ps := proto.Dec(paths); ps != "" {
-			for _, p := range strings.Split(ps, ",") {
-				pt := sharedConfig.PayloadRequestPathParams.String()
-				if strings.HasPrefix(p, "!") {
-					pt = sharedConfig.PayloadResponseHeaders.String()
-					p = p[1:]
-				}
-				e.ccfg.RequestPayloadPaths = append(e.ccfg.RequestPayloadPaths,
-					sharedConfig.PayloadPath{PayloadType: pt, Path: p})
+		e.ccfg = cachingConfig(ttl8, maxrec, maxb, proto.Dec(paths))
+		e.hdr = "Retry-After"
+		e.clk = detclock.NewManual(t0)
+		e.cp = remedies.NewCachingPlugin(e.clk)
+	case "shared":
+		for _, name := range []string{"r0", "r1", "r2", "r3"} {
+			spec, ok := proto.KV(w[2:], name)
+			if !ok {
+				continue
 			}
+			f := strings.Split(spec, "/")
+			if len(f) != 4 {
+				return "bad-op"
+			}
+			ttl8, err1 := strconv.ParseInt(f[0], 10, 64)
+			maxrec, err2 := strconv.ParseInt(f[1], 10, 64)
+			maxb, err3 := strconv.ParseInt(f[2], 10, 64)
+			if err1 != nil || err2 != nil || err3 != nil || maxrec < 0 || maxb < 0 {
+				return "bad-op"
+			}
+			e.rems = append(e.rems, cachingConfig(ttl8, maxrec, maxb, proto.Dec(f[3])))
+		}
+		if len(e.rems) == 0 {
+			return "bad-op"
 		}
 		e.hdr = "Retry-After"
 		e.clk = detclock.NewManual(t0)
@@ -310,7 +342,7 @@ func (e *env) probe() string {
 	switch e.mode {
 	case "cache":
 		c = reflect.ValueOf(e.mc).Elem()
-	case "caching":
+	case "caching", "shared":
 		c = reflect.ValueOf(e.cp).Elem().FieldByName("responseCache").Elem().Elem()
 	case "throttle":
 		c = reflect.ValueOf(e.tp).Elem().FieldByName("responseCache").Elem().Elem()
@@ -328,7 +360,7 @@ func (e *env) probe() string {
 		switch e.mode {
 		case "cache":
 			held += len(k.String()) + len(v.String())
-		case "caching":
+		case "caching", "shared":
 			held += len(k.FieldByName("Method").String()) + len(k.FieldByName("URL").String()) +
 				len(k.FieldByName("HashedRequestPayload").String())
 			held += len(v.FieldByName("ID").String()) + len(v.FieldByName("Body").String()) + 12
@@ -399,6 +431,15 @@ func (e *env) pluginOp(w []string) string {
 	if !ok {
 		return "bad-op"
 	}
+	ccfg := &e.ccfg
+	if e.mode == "shared" {
+		idx, ok := kvN(w[1:], "r")
+		if !ok || idx >= int64(len(e.rems)) {
+			return "bad-op"
+		}
+		ccfg = &e.rems[idx]
+	}
+	caching := e.mode == "caching" || e.mode == "shared"
 	switch w[0] {
 	case "resp":
 		id, ok1 := kvS(w[1:], "id")
@@ -419,8 +460,8 @@ func (e *env) pluginOp(w []string) string {
 		resp := lunarMessages.OnResponse{ID: id, Method: m, URL: u, Status: int(st), Body: body, Headers: h}
 		var act actions.RespLunarAction
 		var err error
-		if e.mode == "caching" {
-			act, err = e.cp.OnResponse(resp, &e.ccfg, pp)
+		if caching {
+			act, err = e.cp.OnResponse(resp, ccfg, pp)
 		} else {
 			act, err = e.tp.OnResponse(resp, &e.tcfg)
 		}
@@ -436,8 +477,8 @@ func (e *env) pluginOp(w []string) string {
 		req := lunarMessages.OnRequest{ID: "q", Method: m, URL: u}
 		var act actions.ReqLunarAction
 		var err error
-		if e.mode == "caching" {
-			act, err = e.cp.OnRequest(req, &e.ccfg, pp)
+		if caching {
+			act, err = e.cp.OnRequest(req, ccfg, pp)
 		} else {
 			act, err = e.tp.OnRequest(req, &e.tcfg)
 		}
@@ -501,7 +542,7 @@ func exec(c proto.Case, o *proto.Out) []string {
 
 func execOnce(c proto.Case, o *proto.Out, count bool) ([]string, bool) {
 	outs := make([]string, len(c.Ops))
-	e := &env{o: o, base: globalBase, count: count}
+	e := &env{o: o, base: globalBase, count: count, gated: map[int64]*gatedCall{}}
 	hit, missAfterStore := false, false
 	stored := map[string]bool{}
 	for i, op := range c.Ops {
@@ -521,6 +562,12 @@ func execOnce(c proto.Case, o *proto.Out, count bool) ([]string, bool) {
 		if ans, ok := e.clockOp(w); ok {
 			outs[i] = ans
 			continue
+		}
+		if e.mode == "cache" {
+			if ans, ok := e.gatedOp(w); ok {
+				outs[i] = ans
+				continue
+			}
 		}
 		switch {
 		case e.mode == "cache" && (w[0] == "set" || w[0] == "get" || w[0] == "has" || w[0] == "del"):
@@ -548,6 +595,9 @@ func execOnce(c proto.Case, o *proto.Out, count bool) ([]string, bool) {
 		case (outs[i] == "miss" || (w[0] == "req" && outs[i] == "noop")) && stored[key]:
 			missAfterStore = true
 		}
+	}
+	for id := range e.gated {
+		e.release(id)
 	}
 	if e.clk != nil {
 		// release every sleeper so that no goroutine of this case survives it
